@@ -89,6 +89,7 @@ type RetLetText struct {
 	Text string
 	K    int
 	Lets map[string]*SExpr
+	Dead bool // the return site is expected to be unreachable under the precondition
 	used bool
 }
 
@@ -112,7 +113,7 @@ type FuncContract struct {
 	EntryUses    []*SExpr
 	Unfold       int
 	Iter         *IterProto
-	Decreases    *SExpr // for recursive functions
+	Decreases    *SExpr   // for recursive functions
 	DecLex       []*SExpr // lexicographic measure (DecLex[0] == Decreases)
 	Ghosts       []SParam
 	Src          string
@@ -506,6 +507,21 @@ func (cs *Contracts) parseItem(pkg string, it item, w, where string, pcurF **Fun
 				curF.Modifies = append(curF.Modifies, a)
 			}
 		case "dead":
+			// dead cover.retN                  (return site by ordinal), or
+			// dead ret "text"#K                (the K-th return statement whose source line starts with text)
+			if rest := strings.TrimSpace(it.text); strings.HasPrefix(rest, "ret \"") {
+				rest = rest[len("ret \""):]
+				end := strings.Index(rest, "\"")
+				if end < 0 {
+					panic(w + ": dead ret \"text\"#K")
+				}
+				k := 1
+				if after := strings.TrimSpace(rest[end+1:]); strings.HasPrefix(after, "#") {
+					fmt.Sscan(after[1:], &k)
+				}
+				curF.RetLetsText = append(curF.RetLetsText, RetLetText{Text: rest[:end], K: k, Dead: true})
+				break
+			}
 			curF.Dead = append(curF.Dead, strings.Fields(it.text)...)
 		case "free":
 			for _, a := range strings.FieldsFunc(it.text, func(r rune) bool { return r == ',' || r == ' ' }) {
